@@ -853,6 +853,19 @@ class StopSequenceMonitor(Monitor):
                     lost = all(tr.sender_state.get((req['sender'], req['inc'])) and
                                self.sees(inst, n) != 'RUNNING' for n in active)
                     if not lost:
+                        # a process that the requester found already STOPPING (stopped by somebody else: no request
+                        # of its own) and that it has since seen stopped is done, whatever happens to it afterwards
+                        waited = [n for n in active
+                                  if not any(r['sender'] == req['sender'] and r['inc'] == req['inc'] and
+                                             r['namespec'] == other and r['target_nick'] == n and r['t'] >= plan['t']
+                                             for r in tr.stops)
+                                  and any(g[0] >= plan['t'] and g[1] in (0, 100, 200, 1000)
+                                          for g in tr.received.get((req['sender'], req['inc'], n, other), ()))]
+                        if waited:
+                            self.count('processes_stopped_by_somebody_else_seen_stopped')
+                            active = [n for n in active if n not in waited]
+                            if not active:
+                                continue
                         mech = ''
                         for n in active:
                             mine = [r for r in tr.stops if r['sender'] == req['sender'] and r['inc'] == req['inc'] and
